@@ -292,7 +292,7 @@ func embedInterleavings(c *harness.Check, binEnv, engine, id string) {
 	out, err := cmd.Output()
 	var emb struct {
 		Stats struct {
-			Executions, Steps, Points, Met, Inconclusive, Pruned int64
+			Executions, Steps, Points, Met, Inconclusive, Pruned, Diverged int64
 			Capped                                               bool
 			Outcomes                                             map[string]int64
 		} `json:"stats"`
@@ -328,6 +328,11 @@ func embedInterleavings(c *harness.Check, binEnv, engine, id string) {
 	c.SetExtra("interleaving_scheduler_steps", emb.Stats.Steps)
 	c.SetExtra("interleaving_deviation_bound_completed", emb.BoundDone)
 	c.SetExtra("interleaving_distinct_outcomes", len(emb.Stats.Outcomes))
+	if emb.Stats.Diverged > 0 {
+		c.Exhaustive = false
+		c.SetExtra("interleaving_executions_diverged", emb.Stats.Diverged)
+		c.Note("%d executions of the interleaving half did not reproduce the prefix they were replaying (state carried from one execution to the next, or nondeterminism the scheduler does not own); they were set aside, not judged", emb.Stats.Diverged)
+	}
 	if emb.Stats.Capped {
 		c.Exhaustive = false
 		c.Note("the interleaving half hit its deadline; bound completed for every scenario: %d", emb.BoundDone)
